@@ -194,7 +194,22 @@ static void observe(Live& L, Rng& r, const std::string& after, uint64_t domain, 
     if (r.chance(0.6)) {
       const bloom_filter w = bloom_filter::wrap(L.mem_ptr(), L.mem_bytes());
       VF_CHECK(w.is_read_only() && w.is_wrapped() && !w.is_memory_owned(), "bloom|fresh-wrap|flags", cfg(L));
-      bloom_filter wc(w);
+      // the read-only view reaches the object under test by copy / move construction or by copy / move assignment onto an
+      // existing writable object (which must become read-only with it)
+      static const char* hows[] = {"copy-construction", "move-construction", "copy-assignment", "move-assignment"};
+      const int how = int(r.below(4));
+      std::unique_ptr<bloom_filter> wcp;
+      if (how == 0) wcp.reset(new bloom_filter(w));
+      else if (how == 1) { bloom_filter t = bloom_filter::wrap(L.mem_ptr(), L.mem_bytes()); wcp.reset(new bloom_filter(std::move(t))); }
+      else {
+        wcp.reset(new bloom_filter(bloom_filter::builder::create_by_size(64 * (1 + r.below(4)), 2, 7)));
+        wcp->update(uint64_t(1));
+        if (how == 2) *wcp = w;
+        else { bloom_filter t = bloom_filter::wrap(L.mem_ptr(), L.mem_bytes()); *wcp = std::move(t); }
+      }
+      bloom_filter& wc = *wcp;
+      count(std::string("readonly_view_via_") + hows[how]);
+      VF_CHECK(wc.is_read_only() && wc.is_wrapped(), std::string("bloom|read-only-view|flags-after-") + hows[how], cfg(L));
       check_view(wc, L, r, "fresh-wrap", after, domain, kind);
       count("view_fresh_wrap");
       if (!L.inserted.empty() && L.insert_valid) count("rewrap_after_updates");
